@@ -45,6 +45,9 @@ type caseDesc struct {
 	Hint      string           `json:"replay_hint"`
 }
 
+// lastDesc is the description of the case being run (for panic reports).
+var lastDesc *caseDesc
+
 func violate(r *vcommon.Report, d *caseDesc, class, detail string, mm *sstmodel.Mismatch) {
 	kind := ""
 	if mm != nil {
@@ -233,6 +236,7 @@ func runTransformCase(r *vcommon.Report, i int, rng *rand.Rand) {
 	d := &caseDesc{Case: i, Kind: kind, Options: t.Opts, Points: len(t.Points), RangeDels: len(t.RangeDels), RangeKeys: len(t.RangeKeys),
 		Prefix: string(tr.SyntheticPrefix), Suffix: fmt.Sprintf("%x", tr.SyntheticSuffix), SeqNum: uint64(tr.SyntheticSeqNum), Hide: tr.HideObsolete,
 		Hint: fmt.Sprintf("VERIF_SEED=%d VERIF_ONLY_CASE=%d", vcommon.Seed(), i)}
+	lastDesc = d
 	r.Eval(1)
 
 	// Assert the documented preconditions of the transforms on the generated
@@ -493,7 +497,7 @@ func TestVerifC29(t *testing.T) {
 	n := vcommon.Scale(300, 15000)
 	r.Cases(n, func(i int, rng *rand.Rand) {
 		if msg, stack := sstmodel.Guard(func() { runTransformCase(r, i, rng) }); msg != "" {
-			r.Violate("panic", "panic: "+msg, map[string]any{"case": i, "panic": msg, "stack": stack,
+			r.Violate("panic", "panic: "+msg, map[string]any{"case": i, "panic": msg, "stack": stack, "desc": lastDesc,
 				"replay_hint": fmt.Sprintf("VERIF_SEED=%d VERIF_ONLY_CASE=%d", vcommon.Seed(), i)}, map[string]any{"message": msg})
 			// A recovered panic leaks open iterators; in invariants builds their pool
 			// finalizers exit the process at the next GC. Persist the report now.
@@ -534,6 +538,7 @@ func runCopyCase(r *vcommon.Report, i int, rng *rand.Rand) {
 	}
 	d := &caseDesc{Case: i, Kind: "copyspan", Options: t.Opts, Points: len(t.Points), RangeDels: len(t.RangeDels), RangeKeys: len(t.RangeKeys),
 		Hint: fmt.Sprintf("VERIF_SEED=%d VERIF_ONLY_CASE=%d", vcommon.Seed(), i)}
+	lastDesc = d
 	r.Eval(1)
 	if err := sstmodel.Build(t); err != nil {
 		violate(r, d, "write-error", err.Error(), nil)
@@ -756,7 +761,7 @@ func TestVerifC29Copy(t *testing.T) {
 	n := vcommon.Scale(200, 8000)
 	r.Cases(n, func(i int, rng *rand.Rand) {
 		if msg, stack := sstmodel.Guard(func() { runCopyCase(r, i, rng) }); msg != "" {
-			r.Violate("panic", "panic: "+msg, map[string]any{"case": i, "panic": msg, "stack": stack,
+			r.Violate("panic", "panic: "+msg, map[string]any{"case": i, "panic": msg, "stack": stack, "desc": lastDesc,
 				"replay_hint": fmt.Sprintf("VERIF_SEED=%d VERIF_ONLY_CASE=%d", vcommon.Seed(), i)}, map[string]any{"message": msg})
 			// A recovered panic leaks open iterators; in invariants builds their pool
 			// finalizers exit the process at the next GC. Persist the report now.
